@@ -14,6 +14,11 @@ Definition model (c : case) : fs * result errno unit :=
       remove_dir_recursively GenLayerShared.rdr_checks_symlink (rdr_fuel (c_pre c))
                              (c_layers c ++ [c_name c]) (c_pre c)
   | OpRecreate => (c_post c, Ok tt)       (* no exact model of create_layer at this level: judged by `holds` only *)
+  | OpReadLayer =>
+      (* read_layer as regenerated from shared.rs; parsing succeeds in the model (a parse error comes after every
+         file-system effect and is accepted by res_agrees_read) *)
+      let '(s', r) := GenLayerSharedImp.gen_read_layer (fun _ : bytes => Some tt) (c_layers c) (c_name c) (c_pre c) in
+      (s', match r with Ok _ => Ok tt | Err e => Err e end)
   end.
 
 Definition res_agrees (o : c11_res) (m : result errno unit) : bool :=
@@ -28,10 +33,21 @@ Definition res_agrees (o : c11_res) (m : result errno unit) : bool :=
 Definition model_regenerated (c : case) : fs * result errno unit :=
   match c_op c with
   | OpDeleteLayer => GenLayerSharedImp.gen_delete_layer (c_layers c) (c_name c) (c_pre c)
-  | OpRdr | OpRecreate => model c
+  | OpRdr | OpRecreate | OpReadLayer => model c
+  end.
+
+(* a parse error (ROther) ends a call whose file-system part went through *)
+Definition res_agrees_read (o : c11_res) (m : result errno unit) : bool :=
+  match o, m with
+  | ROther, Ok _ => true
+  | _, _ => res_agrees o m
   end.
 
 Definition agrees (c : case) : bool :=
   match c_op c with OpRecreate => true | _ => false end ||
+  match c_op c with
+  | OpReadLayer => let '(s', r) := model c in res_agrees_read (c_res c) r && fs_eqb s' (c_post c)
+  | _ => false
+  end ||
   (let '(s', r) := model c in res_agrees (c_res c) r && fs_eqb s' (c_post c)) &&
   (let '(s', r) := model_regenerated c in res_agrees (c_res c) r && fs_eqb s' (c_post c)).
